@@ -101,6 +101,16 @@ def handle (line : String) : String :=
     | some iri =>
       let r := splitIri iri
       reply [kv "ns" (hexOfChars r.1), kv "local" (hexOfChars r.2)]
+  | ["rd", h] =>
+    -- the model READER on arbitrary bytes (the real serialiser's output, verbatim or with numeric
+    -- character references put in): compared with the real parser, independent of the model writer
+    match charsOfHex h with
+    | none => "bad-hex"
+    | some doc =>
+      match readDoc false doc with
+      | .ok ts => reply [kv "parse" "ok", kv "g" (renderGraph ts)]
+      | .err => "parse=err g=err"
+      | .unsupported => "unsupported=1"
   | ["rt", n, h] =>
     -- model round trip of one literal text: `rt <indent> <hextext>`
     match n.toNat?, charsOfHex h with
